@@ -2650,7 +2650,9 @@ def distributed_shampoo(
     new_statistics = [[]] * len(state.statistics)
     w1 = beta2
     w2 = jnp.where(beta2 == 1.0, beta2, 1.0 - beta2)
-    new_avg_grad = optax.MaskedNode()
+    # Parameters that skip preconditioning carry their avg_grad through
+    # unchanged, so the state keeps the layout init_fn gave it.
+    new_avg_grad = state.avg_grad
     if not _skip_preconditioning(param):
 
       if frequent_directions and average_grad:
